@@ -49,7 +49,7 @@ public:
         const size_t *ma_shape = value.shape();
         std::transform(ma_shape, ma_shape + N, ndsize.data(),
                 [](NDSize::const_reference val) {
-                    return static_cast<T>(val);
+                    return static_cast<NDSize::value_type>(val);
                 });
         return ndsize;
     }
